@@ -170,6 +170,7 @@ def run_case(case):
                 sc.w.config["include_prompts_in_repositories"] = ["https://example.invalid/org/another-repo.git"]
             sc.w.write_config()
         sc.setup_agents()
+        sc.profile["rebase_pending_untracked"] = True      # sessions go on working (new files) while their commits are rebased
         C.setup_repo(sc, 3, 10)
         for k in range(rng.choice([2, 3])):
             op = rng.choice(["commit", "partial", "amend", "amend-leftover", "rebase", "cherry", "squash", "reset", "stash"] +
